@@ -65,6 +65,9 @@
 #define VH_EXPECT_NONSINGULAR
 int vh_log_i; double vh_log_d;
 #define VH_OWN_LUSUP
+#ifndef VH_ABORT_OK
+#define VH_ABORT_IS_FAILURE
+#endif
 #include "env_stubs.h"
 #include "mem_stubs.h"
 
